@@ -352,7 +352,17 @@ func cmdCheck(args []string) int {
 		if o.Known != nil && o.knownPart == "inside" {
 			// expected to fail
 			if o.Status == "sat" || o.Status == "unknown" || o.Status == "unbound" {
-				knownLines = append(knownLines, fmt.Sprintf("KNOWN-FINDING: property=%s %s [obligation %s]", *prop, o.Known.What, o.Name))
+				// one line per listed finding (a finding recorded by an obligation prefix may match several obligations)
+				line := fmt.Sprintf("KNOWN-FINDING: property=%s %s [obligation %s]", *prop, o.Known.What, o.Known.Obligation)
+				dup := false
+				for _, l := range knownLines {
+					if l == line {
+						dup = true
+					}
+				}
+				if !dup {
+					knownLines = append(knownLines, line)
+				}
 			} else if o.Status == "unsat" {
 				knownLines = append(knownLines, fmt.Sprintf("STALE-FINDING: property=%s obligation %s now holds inside the recorded witness; remove the entry: %s", *prop, o.Name, o.Known.What))
 			}
